@@ -61,6 +61,52 @@ def _broadcast_major(r, params, shapes):
     return params.index(major), f"broadcast product reshaped in C order: the column axis of `{major}` comes first, so `{major}` is major"
 
 
+def _column_lists(fn, params):
+    """locals bound once to the list of the columns of an operand: `cols = [x[:, j] for j in range(x.shape[1])]`, also guarded by
+    an emptiness shortcut (`... if other_cols else []`: an empty list where nothing would be produced anyway) -> {local: param}"""
+    out = {}
+    al = _shape_aliases(fn)
+    for st in fn.body:
+        if isinstance(st, ast.Assign) and len(st.targets) == 1 and isinstance(st.targets[0], ast.Name):
+            v = st.value
+            if isinstance(v, ast.IfExp) and isinstance(v.orelse, ast.List) and not v.orelse.elts and isinstance(v.test, ast.Name):
+                v = v.body
+            if isinstance(v, ast.ListComp) and len(v.generators) == 1 and not v.generators[0].ifs and isinstance(v.generators[0].target, ast.Name):
+                g_ = v.generators[0]
+                p_ = _range_param(g_.iter, params, al)
+                if p_ is not None and unparse(v.elt) == f"{p_}[:, {g_.target.id}]" \
+                        and sum(1 for n in ast.walk(fn.node) if isinstance(n, ast.Name) and n.id == st.targets[0].id and isinstance(n.ctx, ast.Store)) == 1:
+                    out[st.targets[0].id] = p_
+    return out
+
+
+def _over_columns(fn, params, gens, elt):
+    """generators that run over column lists (see _column_lists) rewritten to index generators: (targets, iters, element)"""
+    import copy as _copy
+    colsof = _column_lists(fn, params)
+    if not colsof:
+        return None
+    new_t, new_i, sub = [], [], {}
+    for k, g in enumerate(gens):
+        if isinstance(g.iter, ast.Name) and g.iter.id in colsof and isinstance(g.target, ast.Name):
+            p_ = colsof[g.iter.id]
+            iv = f"j__{k}"
+            sub[g.target.id] = ast.parse(f"{p_}[:, {iv}]", mode="eval").body
+            new_t.append(iv)
+            new_i.append(ast.parse(f"range({p_}.shape[1])", mode="eval").body)
+        else:
+            new_t.append(unparse(g.target))
+            new_i.append(g.iter)
+    if not sub:
+        return None
+
+    class S(ast.NodeTransformer):
+        def visit_Name(self, n):
+            return _copy.deepcopy(sub[n.id]) if n.id in sub and isinstance(n.ctx, ast.Load) else n
+
+    return new_t, new_i, S().visit(_copy.deepcopy(elt))
+
+
 def _major_of_return(fn, params, r):
     b = _broadcast_major(r, params, None)
     if b is not None:
@@ -82,6 +128,10 @@ def _major_of_return(fn, params, r):
     # comprehension form
     if isinstance(arg, (ast.ListComp, ast.GeneratorExp)) and len(arg.generators) == 2:
         outer, inner = arg.generators
+        oc = _over_columns(fn, params, arg.generators, arg.elt) if not (outer.ifs or inner.ifs) else None
+        if oc is not None:
+            (ot, it_), (oi, ii), elt_ = oc[0], oc[1], oc[2]
+            return _from_loops(fn, params, ot, oi, it_, ii, elt_)
         return _from_loops(fn, params, unparse(outer.target), outer.iter, unparse(inner.target), inner.iter, arg.elt)
     if isinstance(arg, ast.Name):
         # a local bound once to a two-generator comprehension
@@ -101,6 +151,38 @@ def _major_of_return(fn, params, r):
         if len(loops) != 1:
             raise AnalysisError(f"order algebra: expected one outer loop in {fn.qual}")
         outer = loops[0]
+        # loops over the pre-sliced columns of an operand: `cols = [x[:, j] for j in range(x.shape[1])]` ... `for c in cols:` is
+        # `for j in range(x.shape[1]):` with c = x[:, j]
+        import copy as _copy
+        colsof = {}
+        for st in fn.body:
+            if isinstance(st, ast.Assign) and len(st.targets) == 1 and isinstance(st.targets[0], ast.Name) and isinstance(st.value, ast.ListComp) \
+                    and len(st.value.generators) == 1 and not st.value.generators[0].ifs and isinstance(st.value.generators[0].target, ast.Name):
+                g_ = st.value.generators[0]
+                p_ = _range_param(g_.iter, params, _shape_aliases(fn))
+                if p_ is not None and unparse(st.value.elt) == f"{p_}[:, {g_.target.id}]" \
+                        and sum(1 for n in ast.walk(fn.node) if isinstance(n, ast.Name) and n.id == st.targets[0].id and isinstance(n.ctx, ast.Store)) == 1:
+                    colsof[st.targets[0].id] = p_
+
+        def as_index_loop(lp, tag):
+            if isinstance(lp.iter, ast.Name) and lp.iter.id in colsof and isinstance(lp.target, ast.Name):
+                p_, cvar, ivar_ = colsof[lp.iter.id], lp.target.id, f"j__{tag}"
+                col = ast.parse(f"{p_}[:, {ivar_}]", mode="eval").body
+
+                class S(ast.NodeTransformer):
+                    def visit_Name(self, n):
+                        return _copy.deepcopy(col) if n.id == cvar and isinstance(n.ctx, ast.Load) else n
+
+                new = ast.For(target=ast.Name(id=ivar_, ctx=ast.Store()), iter=ast.parse(f"range({p_}.shape[1])", mode="eval").body,
+                              body=[S().visit(_copy.deepcopy(b_)) for b_ in lp.body], orelse=[])
+                ast.copy_location(new, lp)
+                ast.fix_missing_locations(new)
+                return new
+            return lp
+
+        if colsof:
+            outer = as_index_loop(outer, "o")
+            outer.body = [as_index_loop(b_, "i") if isinstance(b_, ast.For) else b_ for b_ in outer.body]
         inners = [n for n in outer.body if isinstance(n, ast.For)]
         # in front of the inner loop: only locals bound once per outer iteration (`x_column = x[:, j1]`), read in the inner loop
         hoisted = {}
